@@ -532,6 +532,47 @@ def run {α} (ops : NumOps α) (numLe : α → α → Bool) (cfg : Cfg) (db : Li
   let full := orderBy numLe keys sel
   (sliceChain cfg full {} slices).apply full
 
+/-! ## a last slice with a step: answered from the loaded list
+
+`Aggregator.__getitem__` hands a slice whose step is neither `None` nor `1` to the *list* of its fits
+(`self.fits[item]`): the result is a plain list (no further aggregator operations), Python's
+`slice.indices` + `range` semantics, negative steps included. -/
+
+/-- the indices `range(*slice(start, stop, step).indices(len))` for `step ≠ 0` -/
+def sliceIndices (len : Nat) (start stop : Option Int) (step : Int) : List Nat :=
+  let n : Int := len
+  if step > 0 then
+    let norm := fun (i : Int) => if i < 0 then max (i + n) 0 else min i n
+    let s := (start.map norm).getD 0
+    let e := (stop.map norm).getD n
+    ((List.range len).map (fun (k : Nat) => s + Int.ofNat k * step)).takeWhile (fun i => decide (i < e)) |>.map Int.toNat
+  else
+    let norm := fun (i : Int) => if i < 0 then max (i + n) (-1) else min i (n - 1)
+    let s := (start.map norm).getD (n - 1)
+    let e := (stop.map norm).getD (-1)
+    ((List.range len).map (fun (k : Nat) => s + Int.ofNat k * step)).takeWhile (fun i => decide (i > e)) |>.map Int.toNat
+
+/-- python `l[start:stop:step]` -/
+def pySliceStep {β} (l : List β) (start stop : Option Int) (step : Int) : List β :=
+  (sliceIndices l.length start stop step).filterMap (fun i => l[i]?)
+
+/-- `Aggregator.query(p).order_by(…)[a:b]…[c:d:step].fits`-like: `run`, then an optional stepped slice -/
+def runStep {α} (ops : NumOps α) (numLe : α → α → Bool) (cfg : Cfg) (db : List (Fit α)) (p : Option (Pred α))
+    (keys : List OrderKey) (slices : List (Option Int × Option Int))
+    (last : Option (Option Int × Option Int × Int)) : List (Fit α) :=
+  match last with
+  | Option.none => run ops numLe cfg db p keys slices
+  | some (a, b, st) => pySliceStep (run ops numLe cfg db p keys slices) a b st
+
+#guard pySliceStep [0, 1, 2, 3, 4] none none (-1) = [4, 3, 2, 1, 0]
+#guard pySliceStep [0, 1, 2, 3, 4] (some 4) (some 1) (-1) = [4, 3, 2]
+#guard pySliceStep [0, 1, 2, 3, 4] none none (-2) = [4, 2, 0]
+#guard pySliceStep [0, 1, 2, 3, 4] (some 1) none 2 = [1, 3]
+#guard pySliceStep [0, 1, 2, 3, 4] (some (-2)) (some (-9)) (-1) = [3, 2, 1, 0]
+#guard pySliceStep [0, 1, 2, 3, 4] (some 9) (some 0) (-3) = [4, 1]
+#guard pySliceStep ([] : List Nat) none none (-1) = []
+#guard pySliceStep [0, 1, 2] (some 5) none 2 = []
+
 /-! ## rendering (debug / branch statistics only) -/
 
 mutual
